@@ -713,6 +713,48 @@ func c02Enumerate(quick bool, visit func(label string, decls gd) bool) {
 			}
 		}
 	}
+	// Level G: (1) a template referenced WITH an xpath from under an array element, so that the reference is
+	// evaluated at several cursors within one record - for every kind of body, also const / external / array,
+	// whose value then depends on the cursor (no match, no value); (2) a function whose argument's
+	// xpath_dynamic is computed by an inner function that fails - in the call, before the call (arity), or
+	// while its own arguments are prepared (several matches): the outer function gets "no value" for that
+	// argument and its other arguments as they are
+	for _, body := range []gd{{"const": "k"}, {"external": "e1"}, {"array": []interface{}{gd{"xpath": "a"}, gd{"const": "|"}}}, {"xpath": "."}, {"object": gd{"t": gd{"xpath": "."}}},
+		{"custom_func": gd{"name": "concat", "args": []interface{}{gd{"xpath": "."}, gd{"const": "!"}}}}} {
+		hasXP := body["xpath"] != nil
+		for _, refXP := range []string{"a", "c", "*", "nomatch"} {
+			site := gd{"xpath": refXP, "template": "T"}
+			if hasXP {
+				site = gd{"template": "T"} // (one xpath between site and body)
+			}
+			for _, elemXP := range []string{"*", "a", "d | a"} {
+				if !visit("G:reference-with-xpath-at-several-cursors", gd{"FINAL_OUTPUT": gd{"object": gd{
+					"arr": gd{"array": []interface{}{gd{"xpath": elemXP, "object": gd{"k": site, "n": gd{"xpath": "."}}}}},
+					"top": site}}, "T": body}) {
+					return
+				}
+			}
+		}
+	}
+	for _, inner := range []gd{
+		{"custom_func": gd{"name": "testfn", "args": []interface{}{gd{"const": "boom"}}}},
+		{"custom_func": gd{"name": "upper", "args": []interface{}{gd{"const": "a"}, gd{"const": "b"}}}},
+		{"custom_func": gd{"name": "upper", "args": []interface{}{}}},
+		{"custom_func": gd{"name": "concat", "args": []interface{}{gd{"const": "x"}, gd{"xpath": "a"}}}},
+		{"custom_func": gd{"name": "concat", "args": []interface{}{gd{"const": "c"}}}},
+	} {
+		for _, pos := range []int{0, 1, 2} {
+			args := []interface{}{gd{"const": "p"}, gd{"xpath": "c"}, gd{"const": "q"}}
+			args[pos] = gd{"xpath_dynamic": inner}
+			outer := gd{"custom_func": gd{"name": "concat", "args": args}}
+			outer2 := gd{"custom_func": gd{"name": "testfn", "args": args}}
+			if !visit("G:failing-function-under-an-argument's-xpath-dynamic", fo(gd{"object": gd{"u": outer, "v": outer2}})) ||
+				!visit("G:failing-function-under-an-argument's-xpath-dynamic", fo(gd{"object": gd{"u": gd{"custom_func": gd{"name": "concat", "args": []interface{}{outer, gd{"const": "/"}, outer}}}}})) ||
+				!visit("G:failing-function-under-an-argument's-xpath-dynamic", fo(gd{"array": []interface{}{outer, gd{"const": "-"}, outer2}})) {
+				return
+			}
+		}
+	}
 	// Level D: degenerate declarations - empty object, empty array, bare field - alone, as siblings of
 	// each other in every combination and order (equal-looking texts must not share results), through
 	// templates, nested, with every option
